@@ -343,6 +343,14 @@ class TaskRef(Ref):
         for k in range(2):
             stk = bs[1][k]
             run = stk[0] if stk and bodies[stk[0]][0] == "R" else None
+            # relaxed nesting: the innermost body is paused while one below it is still in the running state.  Which of
+            # "nothing" and that body's task the rows show then is not fixed by the property: both are accepted
+            lower = None
+            if run is None:
+                for b in stk[1:]:
+                    if bodies[b][0] == "R":
+                        lower = b
+                        break
             vals = {}
             vals[self.T["task"]] = (run[0] % 10) if run else 0
             if run and ("gid", run[0]) in self.learn_map:
@@ -362,6 +370,19 @@ class TaskRef(Ref):
                     vals[self.T["ss"]] = self.body_ss
             else:
                 vals[self.T["ss"]] = 0
+            if lower is not None:
+                alt = {self.T["task"]: lower[0] % 10, self.T["rank"]: (self.rank + k if self.procs == 2 else self.rank) + 1}
+                if ("gid", lower[0]) in self.learn_map:
+                    alt[self.T["gid"]] = self.learn_map[("gid", lower[0])]
+                else:
+                    vals.pop(self.T["gid"], None)
+                if "app" in self.T:
+                    alt[self.T["app"]] = (k + 1) if self.procs == 2 else 1
+                if "body" in self.T:
+                    alt[self.T["body"]] = lower[1]
+                for ty, v in alt.items():
+                    if ty in vals:
+                        vals[ty] = (vals[ty], v)
             for ty, v in vals.items():
                 d[("thread", self.rows[k], ty)] = v
                 d[("cpu", self.cpurows[k], ty)] = v
